@@ -291,10 +291,23 @@ class PyvcExecutor(StmtMixin, Executor):
             return RangeV(a[0], a[1], a[2])
         if n in ("min", "max"):
             vals = list(args)
+            if len(vals) == 1 and isinstance(vals[0], Seq) and is_sym(vals[0].len):
+                sq = vals[0]
+                k = z3.Int(fresh_name("k"))
+                m = z3.Const(fresh_name(n), sq.arr.sort().range())
+                rng = z3.And(k >= 0, k < z3ify(sq.len))
+                if self.feasible(st, z3ify(sq.len) <= 0):
+                    if self.decide(st, z3ify(sq.len) <= 0):
+                        raise PyRaise("ValueError", f"{n}() arg is an empty sequence")
+                st.assume(z3.ForAll([k], z3.Implies(rng, sq.arr[k] <= m if n == "max" else sq.arr[k] >= m), patterns=[sq.arr[k]]))
+                st.assume(z3.Exists([k], z3.And(rng, sq.arr[k] == m)))
+                return m
             if len(vals) == 1:
                 vals = self.iter_concrete(vals[0], st)
             if all(not is_sym(v) for v in vals):
                 return min(vals) if n == "min" else max(vals)
+            if len(vals) == 1 and isinstance(args[0], Seq):
+                raise Undecided("unreachable")
             r = z3ify(vals[0])
             for v in vals[1:]:
                 r, v = self.coerce_pair(r, z3ify(v))
